@@ -252,6 +252,9 @@ def coerce(v, ty):
         if isinstance(v.ty, TOpt):
             return V(ty, (v.t[0], coerce(v.t[1], ty.inner)))
         return V(ty, (z3.BoolVal(False), coerce(v, ty.inner)))
+    if isinstance(v.ty, TTuple) and not v.t and isinstance(ty, (TMap, TSet)):
+        if isinstance(ty, TSet): return V(ty, (empty_set_term(ty.elem), z3.IntVal(0)))
+        return V(ty, (empty_set_term(ty.k), z3.K(sort_of(ty.k), pack(default_value(ty.v))), z3.IntVal(0)))
     if ty is TInt and v.ty is TBool: return V(TInt, z3.If(v.t, z3.IntVal(1), z3.IntVal(0)))
     if ty is TInt and isinstance(v.ty, TEnum) and v.ty.intvalued: return V(TInt, v.ty.value_term(v.t))
     if isinstance(ty, TTuple) and isinstance(v.ty, TTuple) and len(ty.items) == len(v.ty.items):
